@@ -634,10 +634,27 @@ impl Xot {
                 }
             }
         }
+        // the generated prefixes may not override a prefix that is in scope
+        // of the node, nor be overridden by a declaration further down
+        let mut taken_prefixes = self
+            .namespaces_in_scope(node)
+            .map(|(prefix_id, _)| prefix_id)
+            .collect::<HashSet<_>>();
+        for descendant in self.descendants(node) {
+            if self.is_element(descendant) {
+                taken_prefixes.extend(self.namespaces(descendant).keys());
+            }
+        }
         let mut prefixes_to_add = HashMap::default();
-        for (i, namespace_id) in missing_namespace_ids.iter().enumerate() {
-            let prefix = format!("n{}", i);
-            let prefix_id = self.add_prefix(&prefix);
+        let mut i = 0;
+        for namespace_id in missing_namespace_ids.iter() {
+            let prefix_id = loop {
+                let prefix_id = self.add_prefix(&format!("n{}", i));
+                i += 1;
+                if !taken_prefixes.contains(&prefix_id) {
+                    break prefix_id;
+                }
+            };
             prefixes_to_add.insert(prefix_id, namespace_id);
         }
         let mut namespaces = self.namespaces_mut(node);
